@@ -109,6 +109,8 @@ class Tr:
         self.nfresh = 0
         self.bind_node = None        # the raising call currently translated in statement position
         self.with_binders: set = set()
+        self.binders_of: Dict[str, str] = {}     # function -> declared (or inherited) extra binders
+        self.cur_fn: List[str] = []              # functions being translated, innermost last
         self._raising: Dict[str, bool] = {}
         self.out: Dict[str, str] = {}            # coq name -> definition text (in order)
         self.sigs: Dict[str, Any] = {}           # python qualname -> (coq name, param list, ret type)
@@ -273,7 +275,7 @@ class Tr:
             return self._raising[qual]
         fn, cls, _ = self.funcs[qual]
         fsp = next((f for f in self.spec.get("functions", []) + self.spec.get("helpers", []) if f["py"] == qual), {})
-        r = any("raise " in rw["to"] for rw in fsp.get("rewrites", []))
+        r = any("raise " in a["to"] for rw in fsp.get("rewrites", []) for a in (rw["alts"] if "alts" in rw else [rw]))
         for n in walk(fn):
             if isinstance(n, (ast.Raise, ast.Assert)):
                 r = True
@@ -349,11 +351,26 @@ class Tr:
         ret = self.ann(fspec["ret"]) if "ret" in fspec else (self.ann(fn.returns, fn) if fn.returns is not None and self._annot_ok(fn.returns) else None)
         env.ret = ret
         self.busy.append(qual)
+        binders_txt = fspec.get("binders")
+        caller = self.cur_fn[-1] if self.cur_fn else None
+        inherited = False
+        if not binders_txt and not fspec and cls is None and qual.startswith("_") and caller in self.binders_of \
+                and self.funcs[caller][2] == mpath:
+            # an undeclared private module-level helper of a function with declared binders (its abstract
+            # environment) lives in the same environment: same binders, passed on at the call
+            binders_txt, inherited = self.binders_of[caller], True
+        self.cur_fn.append(qual)
         body = [s for s in fn.body if not (isinstance(s, ast.Expr) and isinstance(s.value, ast.Constant) and isinstance(s.value.value, str))]
-        for rw in fspec.get("rewrites", []):       # declared statement models: exact source text -> subset source
-            hits = [i for i, st in enumerate(body) if ast.unparse(st) == rw["from"]]
-            if len(hits) != 1:
-                self.no(fn, f"declared statement model does not apply exactly once (source changed?): {rw['from']!r}")
+        for rw0 in fspec.get("rewrites", []):      # declared statement models: exact source text -> subset source
+            # an entry is {"from", "to", "why"} or {"alts": [{"from", "to"}, ..], "why"}: the spellings of one
+            # declared reading; exactly one alternative must apply, exactly once
+            alts = [dict(rw0, **a) for a in rw0["alts"]] if "alts" in rw0 else [rw0]
+            found = [(a, [i for i, st in enumerate(body) if ast.unparse(st) == a["from"]]) for a in alts]
+            found = [(a, h) for a, h in found if h]
+            if len(found) != 1 or len(found[0][1]) != 1:
+                self.no(fn, "declared statement model does not apply exactly once (source changed?): "
+                            + " | ".join(repr(a["from"]) for a in alts))
+            rw, hits = found[0]
             repl = ast.parse(rw["to"]).body
             for r_ in repl:
                 for n_ in ast.walk(r_):
@@ -368,8 +385,11 @@ class Tr:
         env.mutated = mutated_names(body)
         for m in env.mutated & env.params:
             self.no(fn, f"parameter {m!r} is mutated (side effect visible to the caller)")
+        if fspec.get("binders"):
+            self.binders_of[qual] = binders_txt      # visible to helpers called from the body
         term = self.block(body, env)
         self.busy.pop()
+        self.cur_fn.pop()
         name = self.coq_fname(qual)
         binders = "".join(f" ({n} : {coq_type(t)})" for n, t, _ in params)
         extra, abst = "", []
@@ -379,11 +399,15 @@ class Tr:
             self.res.assumed.append(f"{qual}: opaque function {oname}() is a parameter py_{oname}")
         abst += [t[1] for _, t, _ in params if t[0] == "abs"]
         extra = "".join(f" ({a} : Type)" for a in dict.fromkeys(abst)) + extra
-        if fspec.get("binders"):
-            extra = " " + fspec["binders"] + extra
+        if binders_txt:
+            extra = " " + binders_txt + extra
             self.with_binders.add(qual)
+            self.binders_of[qual] = binders_txt
         rtype = ("result", env.ret) if env.raises else env.ret
         text = f"(* {self.path}:{fn.lineno} {qual} *)\nDefinition {name}{extra}{binders} : {coq_type(rtype)} :=\n  {term}.\n"
+        if inherited:       # helpers extracted from a translated function are transparent to the proofs
+            text += f"#[export] Hint Unfold {name} : pygen.\n"
+            self.res.assumed.append(f"{qual}: undeclared private helper of {caller}, translated with the same extra binders")
         self.out[name] = text
         info = {"py": qual, "coq": name, "line": fn.lineno, "params": [n for n, _, _ in params], "variants": []}
         nd = sum(1 for _, _, d in params if d is not None)
@@ -655,14 +679,15 @@ class Tr:
         return f"'({hv}, {dv})", f"(py_read_loop (fun {hv} => {sz}) (fun {hv} {cv} => {step}) {dv} {init})"
 
     def try_lookup(self, s, rest, env, final):
-        """`try: <assignments with one D[k]> except KeyError: <... raise>` for a declared dict D."""
+        """`try: <assignments with one D[k]> [return e] except KeyError: <... raise>` for a declared dict D."""
         dicts = self.spec.get("dicts", {})
         h = s.handlers[0] if len(s.handlers) == 1 else None
         subs = [n for st in s.body for n in walk(st, False) if isinstance(n, ast.Subscript)
                 and isinstance(n.value, ast.Name) and n.value.id in dicts and isinstance(n.ctx, ast.Load)]
         ok = (h is not None and isinstance(h.type, ast.Name) and h.type.id == "KeyError" and h.name is None
               and not s.orelse and not s.finalbody and always_returns(h.body) and len(subs) == 1
-              and all(isinstance(st, ast.Assign) and len(st.targets) == 1 and isinstance(st.targets[0], ast.Name) for st in s.body))
+              and all((isinstance(st, ast.Assign) and len(st.targets) == 1 and isinstance(st.targets[0], ast.Name))
+                      or (st is s.body[-1] and isinstance(st, ast.Return) and st.value is not None) for st in s.body))
         if ok:      # nothing else in the body may raise KeyError: only calls of the looked-up value itself
             for st in s.body:
                 for n in walk(st, False):
@@ -677,7 +702,7 @@ class Tr:
         v = self.fresh(subs[0].value.id)
         e1, e2 = env.fork(), env.fork()
         e1.narrow[ast.unparse(subs[0])] = (v, self.ann(d["value"]))
-        t1 = self.block(s.body + rest, e1, final)
+        t1 = self.block(s.body + ([] if always_returns(s.body) else rest), e1, final)
         e2.ret = e1.ret
         t2 = self.block(h.body, e2, final)
         env.ret = e2.ret
@@ -1271,9 +1296,15 @@ class Tr:
 
     def call_fn(self, e, qual, args, env):
         """Call of a translated function; opaque parameters of the callee are passed on."""
+        saved_bind = self.bind_node              # translating the callee now must not disturb the caller's state
         cname, ps, ret, extra, raises, kind, opq = self.function(qual, e)
+        self.bind_node = saved_bind
+        pass_binders = []
         if qual in self.with_binders:
-            self.no(e, f"call of {qual}, which has declared extra binders")
+            me = self.cur_fn[-1] if self.cur_fn else None
+            if me is None or self.binders_of.get(me) != self.binders_of.get(qual):
+                self.no(e, f"call of {qual}, which has declared extra binders")
+            pass_binders = [n for grp in re.findall(r"\(([^:()]+):", self.binders_of[qual]) for n in grp.split()]
         if raises and e is not self.bind_node:
             self.no(e, f"call of {qual}, which can raise, inside an expression (only `f(..)`, `x = f(..)`, `return f(..)`)")
         for oname, sig in opq.items():
@@ -1283,7 +1314,7 @@ class Tr:
             self.no(e, f"call of {qual}, which has abstract type parameters")
         if len(args) > len(ps) or any(d is None for _, _, d in ps[len(args):]):
             self.no(e, f"wrong number of arguments for {qual}")
-        terms = [f"py_{o}" for o in opq]
+        terms = pass_binders + [f"py_{o}" for o in opq]
         for a, (pn, pt, _) in zip(args, ps):
             term, t = self.expr(a, env, pt)
             if not same(t, pt):
@@ -1427,6 +1458,7 @@ From Coq Require Import List String Ascii NArith ZArith Bool.
 From MV Require Import Base.Sx Base.Cmp Gen.PyLib.
 Import ListNotations.
 Local Open Scope string_scope.
+Create HintDb pygen.
 {extra}
 """
 
